@@ -90,6 +90,8 @@ pub enum Subject {
     Tbo(Pin<Box<TryBufferedOrdered<SUp<Result<STry, Token>>>>>),
     Fe(Pin<Box<dyn Future<Output = ()>>>),
     Ja(JoinAll<SFut>),
+    JaP(JoinAll<PFut>),
+    TjaP(TryJoinAll<PTry>),
     Tja(TryJoinAll<STry>),
     Dead,
 }
@@ -198,6 +200,8 @@ impl Runner {
                     fe_make as FeFn,
                 ))),
                 // (an iterator without an exact size hint for the "lazy" constructor)
+                "ja" if ctor == "plain" => Subject::JaP(join_all(init.iter().map(|c| PFut::new(*c)))),
+                "tja" if ctor == "plain" => Subject::TjaP(try_join_all(init.iter().map(|c| PTry::new(*c)))),
                 "ja" if ctor == "from_iter_lazy" => Subject::Ja(join_all(init.iter().filter(|_| true).map(|c| SFut::new(*c)))),
                 "tja" if ctor == "from_iter_lazy" => Subject::Tja(try_join_all(init.iter().filter(|_| true).map(|c| STry::new(*c)))),
                 "ja" => Subject::Ja(join_all(init.iter().map(|c| SFut::new(*c)))),
@@ -272,6 +276,27 @@ impl Runner {
                 _ => return,
             }
         };
+        if is_adapter(&self.kind) && up_is_huge() {
+            // numbers around usize::MAX do not fit the trace format: an order-preserving map brings them down
+            // (x < 2^64 - 100000 -> min(x, 999999); otherwise 1000000 + (x - (2^64 - 100000)))
+            let shift = |x: u128| -> i64 {
+                let base = (1u128 << 64) - 100_000;
+                if x < base { x.min(999_999) as i64 } else { (1_000_000 + (x - base)) as i64 }
+            };
+            let (alive, produced): (i64, i64) = with(|w| (w.alive.len() as i64, w.produced));
+            let rem = up_huge_remaining() + (alive + produced - self.yielded) as u128;
+            ev(format!(
+                r#"{{"e":"obs","len":{},"empty":{},"term":{},"cap":{},"lo":{},"hi":{},"rem":{}}}"#,
+                len,
+                empty,
+                term,
+                cap,
+                shift(lo as u128),
+                hi.map(|h| shift(h as u128)).unwrap_or(-1),
+                shift(rem)
+            ));
+            return;
+        }
         let rem = self.remaining();
         ev(format!(
             r#"{{"e":"obs","len":{},"empty":{},"term":{},"cap":{},"lo":{},"hi":{},"rem":{}}}"#,
@@ -438,6 +463,15 @@ impl Runner {
                     Poll::Pending => PollOut::Pending,
                     Poll::Ready(v) => PollOut::Vec(v),
                 },
+                Subject::JaP(q) => match Pin::new(q).poll(&mut cx) {
+                    Poll::Pending => PollOut::Pending,
+                    Poll::Ready(v) => PollOut::Vec(v),
+                },
+                Subject::TjaP(q) => match Pin::new(q).poll(&mut cx) {
+                    Poll::Pending => PollOut::Pending,
+                    Poll::Ready(Ok(v)) => PollOut::Vec(v),
+                    Poll::Ready(Err(e)) => PollOut::Err(e),
+                },
                 Subject::Tja(q) => match Pin::new(q).poll(&mut cx) {
                     Poll::Pending => PollOut::Pending,
                     Poll::Ready(Ok(v)) => PollOut::Vec(v),
@@ -588,6 +622,7 @@ impl Runner {
             let _c = InCrate::enter();
             drop(s);
         }));
+        plain_released_with_collection();
         take_allocs();
         ev(r#"{"e":"dropc_e"}"#.to_string());
     }
@@ -714,6 +749,10 @@ pub fn run_scenario(sc: &Scenario, run: u64, hooklog: bool) {
             let n = with(|w| w.alive.len()) as u32 + 3;
             r.apply(&Op::Quiet { n });
             r.drain();
+        }
+        "quietonly" => {
+            let n = with(|w| w.alive.len()) as u32 + 3;
+            r.apply(&Op::Quiet { n });
         }
         "repoll" => {
             r.drain();
